@@ -1,7 +1,7 @@
 (* C12 - negotiated parse configuration matches the capabilities both sides sent.
    Gen/Merge.v (the seven merge arms and the rx rule) is regenerated from /repo on every run. *)
 From Coq Require Import List NArith Bool.
-From RC Require Import Base.Res Base.Wire Gen.Merge Model.Negotiate Proofs.NegotiateProofs Proofs.C12Proofs Gen.FsmTable Model.Fsm Proofs.C08Proofs.
+From RC Require Import Base.Res Base.Wire Gen.Merge Model.Negotiate Proofs.NegotiateProofs Proofs.C12Proofs Proofs.C12Live Gen.FsmTable Model.Fsm Proofs.C08Proofs.
 Import ListNotations.
 Open Scope N_scope.
 
@@ -75,6 +75,26 @@ Theorem c12_live :
 Proof. exact c12_live_proof. Qed.
 Check c12_live : forall local rcvd other c f, addpath_families_vec rcvd = Ok other -> NoDup (keys other) -> live_session_config local rcvd = Ok c -> get_addpath c f = dir_spec (if existsb (fam_eqb f) local then Some 3 else None) (find_fam other f) /\ sc_four c = four_octet_capable rcvd.
 Print Assumptions c12_live.
+
+(* "holds identically for the live session": what the live session derives is what the OPEN-pair derivation (c12_get, c12_four_octet:
+   the one used for BMP Peer Up) gives for the OPEN the session itself sends - capability 65 and ADD-PATH send+receive for every
+   configured family, Fsm.sent_open_caps - and the peer's OPEN *)
+Theorem c12_live_is_pair : forall asn4 local rcvd other c f,
+  Forall (fun g => fst g < 65536 /\ snd g < 256) local -> NoDup local ->
+  addpath_families_vec rcvd = Ok other -> NoDup (keys other) ->
+  live_session_config local rcvd = Ok c ->
+  get_addpath c f = get_addpath (session_config (sent_caps asn4 local) rcvd) f /\
+  sc_four c = sc_four (session_config (sent_caps asn4 local) rcvd).
+Proof. exact c12_live_is_pair_proof. Qed.
+Print Assumptions c12_live_is_pair.
+
+(* the capabilities [sent_caps] stands for are the ones the FSM model says the session sends *)
+Theorem c12_sent_caps_are_the_sent_open : forall asn4 s,
+  Forall (fun g => fst g < 65536 /\ snd g < 256) (s_local_ap s) ->
+  addpath_families_vec (sent_caps asn4 (s_local_ap s)) = Ok (snd (sent_open_caps s)) /\
+  four_octet_capable (sent_caps asn4 (s_local_ap s)) = fst (sent_open_caps s).
+Proof. intros asn4 s H. exact (sent_caps_vec asn4 (s_local_ap s) H). Qed.
+Print Assumptions c12_sent_caps_are_the_sent_open.
 
 Theorem c12_malformed :
   forall sent rcvd f, (addpath_families_vec sent = Err \/ addpath_families_vec rcvd = Err) ->
